@@ -67,6 +67,9 @@ pub fn node_e<'s, I: Kind<'s>, R: Er<'s, I>>(this: &mut Bld<'s, I, R>, g: &G) ->
                     cfg.seq(t.into_iter().map(I::Tok::from_char).collect::<Vec<_>>())
                 }
             })
+            // the configured parser ITSELF is boxed (its own dyn entry points go_emit / go_check are then on the path,
+            // as for any user who writes `just(..).configure(..).boxed()`), the conversion comes on top
+            .boxed()
             .map(|v: Vec<I::Tok>| Val::Str(v.iter().map(|t| t.to_char()).collect()))
             .cb(),
         Track(a, t) => {
